@@ -160,6 +160,18 @@ def directed_known(rng=None):
           "TGroupAgg [%d%%N] [(Some %d%%N, ASum, %s)]" % (n("a"), n("x908"), col("c")), by=["a"],
           flat="PGroup true [PSort [false; false]; PAgg; PTake]"),
         sel(["a", "x908"])], False, ["a", "x908"], {"agg_in_group_not_last": True})))
+    # F41: an inner join on all columns of both sides keeping the left columns is rewritten to INTERSECT
+    on = "EBin And (EBin Eq (%s) (%s)) (EBin Eq (%s) (%s))" % (col("a", "t"), col("a", "u"), col("b", "t"), col("d", "u"))
+    out.append(("F41-inner-join-rewritten-to-intersect", P.Program([
+        S("select", "select {a, b}", "TExclude [%s]" % "; ".join("(None, %d%%N)" % n(c) for c in ("id", "c", "g"))),   # keeps the qualifier t
+        S("distinct", "group {a, b} (take 1)", "TDistinct"),
+        S("join", "join u=(from u | select {a, d}) (t.a == u.a && t.b == u.d)",
+          "TJoin Inner %d%%N %s (Rel.apply (TSelect [(None, %s); (None, %s)]) U_TABLE) (%s)" % (n("u"), P.coq_names(["a", "d"]), col("a"), col("d"), on),
+          side="Inner", alljoin=True),
+        S("select", "select {t.a, t.b}", "TSelect [(None, %s); (None, %s)]" % (col("a", "t"), col("b", "t")), final=True)],
+        False, ["a", "b"]),
+        # a left row matched by two right rows (multiplicity) and a NULL key (`==` never matches NULL, INTERSECT does)
+        {"t": [[1, 1, 1, 0, 0], [2, 1, 1, 0, 0], [3, 2, None, 0, 0]], "u": [[1, 1, 1, 0], [2, 1, 1, 0], [3, 2, None, 0]]}))
     # C07-N1: a sorted let-bound relation that keeps its sort column, then joined
     s_, u_ = n("s9"), n("u")
 
